@@ -294,6 +294,23 @@ def step (line : String) : String :=
         let implok := consecutive vs && newestVersion vs == some (Int.ofNat vs.length) &&
           (match lod with | none => saverOnly.contains ty | some l => l == vs)
         driverResult impl ok implok true (if vs.length > 1 then "multi-version" else "single-version")
+  | some (.list [.atom "newest", _, pyout]) =>
+    -- python: ((type protocol) ...) of the records an ordinary save wrote, registered types only
+    match pyout with
+    | .list rows =>
+      let expect (ty : String) : Option Int := do
+        let i ← idOf ty
+        let vs ← rlookup saverTable i
+        newestVersion vs
+      let impl : List Sexp := rows.filterMap fun r => match r with
+        | .list [.atom ty, _] => (expect ty).map fun v => Sexp.list [.atom ty, ofInt v]
+        | _ => none
+      let multi := rows.any fun r => match r with
+        | .list [.atom ty, _] => (expect ty).any (· > 1)
+        | _ => false
+      let ok := Sexp.list impl == pyout
+      driverResult (.list impl) ok true true (if multi then "multi-version-type-written" else "single-version-only")
+    | _ => driverResult (.atom "rows") false true true "malformed"
   | some (.list [.atom "patch", .atom name, pyout]) =>
     -- python: (finalName status)   status ∈ ok | value-error
     let start := Nm.ofString name
